@@ -93,23 +93,27 @@ pub fn gen_program(r: &mut Rng, cfg: &mut Rng, big: bool) -> (Vec<Fact>, Vec<dm:
         }
         rules.push(rule);
     }
+    // joins are evaluated by materialising binding sets: keep |facts|^premises bounded so a run stays in the millisecond range
+    let maxp = rules.iter().map(|r| r.prem.len()).max().unwrap_or(1);
+    let cap = match maxp { 0..=2 => 60, 3 => 22, _ => 12 };
+    facts.truncate(cap);
     (facts, rules)
 }
 
 impl Prop for C05 {
     type Case = DlCase;
     fn id(&self) -> &'static str { "C05" }
-    fn budget(&self, tier: Tier) -> Budget { match tier { Tier::Quick => Budget { runs: 4000, wall_s: 60, recheck: 30 }, Tier::Thorough => Budget { runs: 150_000, wall_s: 1500, recheck: 100 } } }
+    fn budget(&self, tier: Tier) -> Budget { match tier { Tier::Quick => Budget { runs: 4000, wall_s: 60, recheck: 30 }, Tier::Thorough => Budget { runs: 150_000, wall_s: 1200, recheck: 100 } } }
     fn hash_seed(&self, c: &DlCase) -> u64 { c.hash_seed }
     fn gen(&self, seed: u64, _i: u64, tier: Tier) -> DlCase {
         let mut r = Rng::sub(seed, "workload"); let mut cfg = Rng::sub(seed, "swarm"); let mut pr = Rng::sub(seed, "perturb");
-        let big = cfg.chance(1, 20);
+        let big = cfg.chance(1, 30);
         let (facts, rules) = gen_program(&mut r, &mut cfg, big);
         let per = if tier == Tier::Quick { 3 } else { 6 };
         let mut runs = vec![];
         for s in 0..4u8 {
             runs.push(Perturb { strategy: s, pool: 1, rayon_seed: 0, order_seed: 0 });
-            for _ in 1..(if big { 2 } else { per }) { runs.push(Perturb { strategy: s, pool: *pr.pick(&[1, 2, 3, 4, 8, 16]), rayon_seed: pr.next(), order_seed: pr.next() }); }
+            for _ in 1..(if big { if s == 2 { 1 } else { 2 } } else { per }) { runs.push(Perturb { strategy: s, pool: *pr.pick(&[1, 2, 3, 4, 8, 16]), rayon_seed: pr.next(), order_seed: pr.next() }); }
         }
         DlCase { hash_seed: Rng::sub(seed, "hash").next(), facts, rules, runs }
     }
